@@ -30,10 +30,27 @@ MANIFEST_TEXT = ("Lean 4 theorems over an arbitrary field, for every size n and 
                  "some lanes exactly singular) are checked by residual: well-conditioned, permutation+tiny, unit-phase families, "
                  "each also multiplied by m*2^k over the whole exponent range in which nothing over/underflows (double: |k|<=900, "
                  "long double: |k|<=15900), exactly singular float matrices (zero row/column, equal rows), and runs with "
-                 "FMatrixPrecision<>::set_absolute_limit set to 0 ... 1e300 around the call.")
+                 "FMatrixPrecision<>::set_absolute_limit set to 0 ... 1e300 around the call. "
+                 "Round four: the hand-written LU / DiagonalMatrix model is tied to the source: tr_c02.py re-reads on every "
+                 "run the loop headers, statement order, branch conditions (pivot comparison, singularity test, throwEarly "
+                 "block), the arguments of the three luDecomposition calls (operand is a local copy, throwEarly literal) and "
+                 "the scalar kernel of every update statement of luDecomposition, Elim, ElimPivot, ElimDet, the LU branches "
+                 "of solve/invert/determinant and DiagonalMatrix::solve/invert/determinant; 19 tie_* theorems state that the "
+                 "model functions are exactly these loop skeletons instantiated with the generated kernels (proved with "
+                 "ring, so commuted factors / renamed variables / respelled compound assignments pass). New theorems about "
+                 "histories and consistency: invert_sound (both modes, every n), A.invert();A.invert() restores A "
+                 "(invert_invert, invert_invert_returns), solve = invert*b, the result of solve does not depend on the "
+                 "pivoting mode, det(B)*det(A)=1, DiagonalMatrix::solve/invert/determinant agree with the dense calls on "
+                 "diag(d). New cases: solve with x and b of different vector families (fmx/dmx/diagx) and the same object "
+                 "inverted twice (inv2).")
 MANIFEST_NOTE = ("Trusted: Lean kernel (+propext/Classical.choice/Quot.sound), Mathlib's Matrix.det and real numbers, "
-                 "tr_c02.py, the fidelity of the hand-written LU model (differential execution over GF(p) only; any harmless "
-                 "change of pivot choice is invisible there by design), g++/ASan/UBSan. Floating point: proved for real scalars "
+                 "tr_c02.py, the fidelity of the hand-written LU model (round four: every scalar kernel, loop header, "
+                 "statement order and call flag of the LU path is regenerated from the source and tied to the model by the "
+                 "tie_* theorems; what remains hand-written is the fold structure itself -- which loop nests in which and "
+                 "the meaning of `swap` -- checked by differential execution over GF(p); any harmless change of pivot choice "
+                 "is invisible there by design; a rewrite of the LU code that leaves the translator's statement grammar, "
+                 "e.g. a hoisted reciprocal or row references, is reported as a broken tie and then needs a failing input "
+                 "from the search to count as a violation of the property), g++/ASan/UBSan. Floating point: proved for real scalars "
                  "under the standard rounding model without overflow/underflow, in terms of the computed factors |L||U| (no "
                  "growth-factor bound); that the machine arithmetic satisfies this model (and commutes with power-of-two "
                  "scalings), the complex case, the closed forms "
@@ -55,8 +72,9 @@ MANIFEST_NOTE = ("Trusted: Lean kernel (+propext/Classical.choice/Quot.sound), M
 TECHNIQUE = ('Lean 4 proof (L*W = P*A0 invariant of in-place LU with partial pivoting, any field, any n; top-level theorems '
              'about the size-dispatching member functions; entry-wise rounding-error invariant for the same loops over '
              'rounded reals; lockstep simulation of the scaled against the unscaled run for any scalar type) + translator '
-             'for the closed-form blocks, the size dispatch and the '
-             'default arguments + differential correspondence over GF(32003) with independent oracle + residual oracle over '
+             'for the closed-form blocks, the size dispatch, the '
+             'default arguments and (round four) the kernels / loop headers / call flags of the whole LU path and of '
+             'DiagonalMatrix + differential correspondence over GF(32003) with independent oracle + residual oracle over '
              'double / long double / complex / LoopSIMD<double,4> at all magnitudes')
 TRANSLATORS = [tr_c02.translate]
 HARNESS = dict(
@@ -65,8 +83,10 @@ HARNESS = dict(
     flags=["-O0", "-g1"],
 )
 RULE = ("cases: field gf|f64|ld|c64|v64 (v64 = LoopSIMD<double,4>, four independent lanes) x op solve|invert|det|"
-        "FMatrixHelp::invertMatrix[_retTransposed] x FieldMatrix|"
+        "FMatrixHelp::invertMatrix[_retTransposed]|inv2 (the same object inverted twice; gf, pivoting on/default) x FieldMatrix|"
         "DynamicMatrix|DiagonalMatrix x n=1..7 (DynamicMatrix also 8..10) x doPivoting true|false|argument omitted; "
+        "one solve in six with x and b of the other vector family (fmx: FieldMatrix, x DynamicVector, b FieldVector; dmx: "
+        "DynamicMatrix, x FieldVector, b DynamicVector; diagx: DiagonalMatrix with DynamicVectors); "
         "GF(32003) matrices from 12 generators (dense, sparse, row-permuted triangular, rank-deficient products, "
         "dependent/zero rows or columns, vanishing leading minor, pivot ties x/p-x, monomial, singular only in the last "
         "step, diagonal-ish) plus exhaustive/strided enumeration of 0/1 and 0/1/-1 matrices; floats: rotations x "
@@ -83,7 +103,8 @@ RULE = ("cases: field gf|f64|ld|c64|v64 (v64 = LoopSIMD<double,4>, four independ
         "diagonal, unpivoted break-down); lu_* counters = pivot patterns seen by a statistics-only shadow elimination; "
         "gen_scale_* / flt_A_exp2_* = binary magnitude classes of the float operands; simd_* = lane mixes")
 ASSUMPTIONS = [
-    "the LU model lean/DuneVerif/Model/C02.lean is hand-written; its fidelity to densematrix.hh rests on the differential run over GF(32003)",
+    "the LU model lean/DuneVerif/Model/C02.lean is hand-written; since round four its scalar kernels, loop headers, statement order, singularity test and luDecomposition call flags are regenerated from densematrix.hh / diagonalmatrix.hh and tied to it by the tie_* theorems; the fold structure (nesting, meaning of swap) rests on the differential run over GF(32003)",
+    "the translator's LU grammar accepts renamed loop variables / locals, any whitespace and bracing, i++ / ++i, compound or spelled-out assignments, commuted and re-associated right-hand sides, either orientation of the pivot comparison (> or >=), pivot search from i or i+1, Simd::cond with == or != condition, the column un-permutation with or without its guard; any other rewrite of these functions (hoisted sub-expressions, row references, additional statements) is reported as a broken obligation and triggers the search for a failing input",
     "the closed forms for n<=3, FMatrixHelp::invertMatrix*, the list of sizes with a closed-form branch and the default arguments of doPivoting are regenerated from the source by tools/translators/tr_c02.py (straight-line grammar; anything else raises)",
     "floating point: the backward-error theorems are about the models over reals with a rounding function of relative error <= u (standard model, no overflow/underflow, real scalars); that IEEE double / x87 long double / std::complex arithmetic as compiled meets it is assumed; harness residual tolerance 100 n^2 eps relative to ||A|| ||x|| + ||b|| (solve), ||A|| ||B|| (inverse), prod of row 1-norms (determinant)",
     "the theorems need absval x = 0 <-> x = 0 and 0 <= absval x (true for abs on real/complex fields and for the harness' GF(p) class)",
